@@ -1121,6 +1121,26 @@ MUTANTS = [
             let staging_snapshot = self.get_staging_snapshot(key);
 """,
          expect="C09.g/key-of-set/staging-sampled-before-the-store"),
+    dict(id="C13.e-derive-skips-last-tuple-field", prop="C13", file="crates/stable_hash_derive/src/lib.rs",
+         old="            let field_hashes = fields.unnamed.iter().enumerate().map(|(i, _)| {",
+         new="            let field_hashes = fields.unnamed.iter().enumerate().skip(1).map(|(i, _)| {",
+         expect="C13.e/derive/every-field-hashed-once"),
+    dict(id="C12.h-derive-tuple-struct-index-after-filter", prop="C12", file="crates/serialize_derive/src/lib.rs",
+         old="                .enumerate()\n                .filter(|(_, field)| !should_skip(field))",
+         new="                .filter(|field| !should_skip(field))\n                .enumerate()", nth=0,
+         expect="C12.h/derive-shapes/"),
+    dict(id="C13.e-derive-enum-without-discriminant", prop="C13", file="crates/stable_hash_derive/src/lib.rs",
+         old="""        #trait_crate_path::StableHash::stable_hash(
+            &::std::mem::discriminant(self),
+            state
+        );
+
+        match self {""", new="""        match self {""",
+         expect="C13.e/discriminant-before-alternation"),
+    dict(id="C13.e-derive-enum-named-variant-drops-first-field", prop="C13", file="crates/stable_hash_derive/src/lib.rs",
+         old="                let field_hashes = field_names.iter().map(|field_name| {",
+         new="                let field_hashes = field_names.iter().skip(1).map(|field_name| {",
+         expect="C13.e/derive/every-field-hashed-once"),
     # ------------------------------------------------------------------ C09.f (D5)
     dict(id="C09.f-D5-fold-heap-in-arbitrary-order", prop="C09", file=ST + "key_of_set_map/cache.rs",
          old="""        let mut ordered = log.iter().collect::<Vec<_>>();
